@@ -53,6 +53,24 @@ def _line_cb(code, line):
     return None
 
 
+def _instr_cb(code, offset):
+    w = shim._Cur.world
+    if w is None or not w.line_yields:
+        return None
+    s = w.sched
+    t = s.me()
+    if t is None or t is not s.current:
+        return None
+    s.yield_point((code.co_name, "i%d" % offset))
+    return None
+
+
+# Functions the I/O thread evaluates without any lock over state that workers change: a thread
+# switch between two bytecodes of ONE source line matters there (e.g. `x and x[-1]`), so these get
+# a yield point per instruction instead of per line.
+INSTRUCTION_LEVEL = (("channel", "HTTPChannel", "readable"), ("channel", "HTTPChannel", "writable"))
+
+
 def install():
     """Rebind the module globals of the waitress modules (once per process)."""
     global _patched, _monitoring_on
@@ -69,6 +87,12 @@ def install():
     mon.use_tool_id(_TOOL, "vf-sim")
     mon.register_callback(_TOOL, mon.events.LINE, _line_cb)
     mon.set_events(_TOOL, mon.events.LINE)
+    mon.register_callback(_TOOL, mon.events.INSTRUCTION, _instr_cb)
+    for modname, clsname, fname in INSTRUCTION_LEVEL:
+        fn = getattr(getattr(getattr(waitress, modname), clsname), fname, None)
+        code = getattr(fn, "__code__", None)
+        if code is not None:
+            mon.set_local_events(_TOOL, code, mon.events.INSTRUCTION)
     _monitoring_on = True
     _patched = True
 
